@@ -35,6 +35,17 @@ def _npoly(item):
 STRUCTURE_KEYS = ("item", "window", "waters", "damage", "rename", "chains", "input_name")
 
 
+TITRATABLE = ("LYS", "ASP", "GLU", "HIS", "TYR", "CYS", "ARG")
+_resname_cache = {}
+
+
+def _poly_resnames(item):
+    if item not in _resname_cache:
+        _resname_cache[item] = [g["resname"] for g in corpus.polymer_groups(
+            corpus.residue_groups(corpus.first_model_lines(corpus.load(item))))]
+    return _resname_cache[item]
+
+
 def _residue_ids(cfg):
     """chain:resnum labels of the polymer residues of a cfg's structure (PROPKA syntax)."""
     text = corpus.structure_text({k: v for k, v in cfg.items() if k in STRUCTURE_KEYS})
@@ -76,7 +87,15 @@ def gen_cfg(rng, structure=None):
         whole_ok = item in ("cterm_hid.pdb", "5vav_cyclic_peptide.pdb")
         if not (whole_ok and rng.random() < 0.5):
             n = rng.randint(4, 14)
-            cfg["window"] = [rng.randint(0, max(0, npoly - n)), n]
+            start = rng.randint(0, max(0, npoly - n))
+            if rng.random() < 0.5:
+                # termini x titratable residues: a window that ends (or starts) at one
+                names = _poly_resnames(item)
+                tit = [i for i, nm in enumerate(names) if nm in TITRATABLE]
+                if tit:
+                    t = rng.choice(tit)
+                    start = max(0, t - n + 1) if rng.random() < 0.6 else min(t, max(0, npoly - n))
+            cfg["window"] = [start, n]
             cfg["waters"] = rng.choice([0, 0, 4, 10])
         nres = cfg["window"][1] if cfg.get("window") else npoly
         if rng.random() < 0.3:
@@ -113,7 +132,7 @@ def gen_cfg(rng, structure=None):
         propka_p = 0.8
     if rng.random() < propka_p:
         argv += ["--titration-state-method=propka",
-                 f"--with-ph={rng.choice([2.0, 4.5, 7.0, 9.0, 12.0])}"]
+                 f"--with-ph={rng.choice([1.0, 2.0, 4.5, 7.0, 9.0, 12.0, 13.5])}"]
         k = rng.random()
         if k < 0.25:
             ids = _residue_ids(cfg)
@@ -247,6 +266,39 @@ def one_axis_sibling(rng, base):
     if not cfg.get("files"):
         cfg.pop("files", None)
     return cfg
+
+
+def titration_matrix_families(seed):
+    """Deterministic families covering terminus x titratable residue x pH extreme x force
+    field: for every titratable residue type a window that ENDS at such a residue and one
+    that STARTS at one, each run with PROPKA at pH 1 and 13.5 under several force fields.
+    State that depends on (protonation state x chain position x force field) is only
+    reached by these conjunctions; random drawing hits them too rarely."""
+    rng = random.Random(seed * 31 + 5)
+    fams = []
+    items = ["1AJJ.pdb", "1BX8.pdb", "1K1I.pdb", "1US0.pdb", "1QBS.pdb", "cterm_hid.pdb"]
+    for t in TITRATABLE:
+        for where in ("C", "N"):
+            cands = []
+            for it in items:
+                names = _poly_resnames(it)
+                cands += [(it, i) for i, nm in enumerate(names) if nm == t]
+            if not cands:
+                continue
+            it, i = cands[rng.randrange(len(cands))]
+            n = 6
+            npoly = _npoly(it)
+            start = max(0, i - n + 1) if where == "C" else min(i, max(0, npoly - n))
+            if where == "N" and start != i:
+                continue
+            struct = {"item": it, "window": [start, n], "waters": 0}
+            fam = []
+            for ff, ph in (("PARSE", 13.5), ("AMBER", 13.5), ("AMBER", 1.0), ("CHARMM", 1.0),
+                           ("SWANSON", 13.5), ("TYL06", 1.0)):
+                fam.append(dict(struct, argv=[f"--ff={ff}", "--titration-state-method=propka",
+                                              f"--with-ph={ph}"]))
+            fams.append(fam)
+    return fams
 
 
 FAILING_CFGS = [
@@ -566,6 +618,17 @@ def main(tier, seed):
                 pool.append(c)
         if fam:
             families.append(fam)
+    n_pool_random = len(pool)
+    for fam_cfgs in titration_matrix_families(seed):
+        fam = []
+        for c in fam_cfgs:
+            k = corpus.cfg_key(c)
+            if k not in seen:
+                seen.add(k)
+                fam.append(len(pool))
+                pool.append(c)
+        if fam:
+            families.append(fam)
     n_pool = len(pool)
     # each history sees two or three whole families (keeps job messages small)
     hists = []
@@ -594,6 +657,33 @@ def main(tier, seed):
         ops = gen_history(hs, subpool)
         hists.append({"id": f"h{h}", "kind": "c11.history", "seed": hs, "ops": ops,
                       "pool": subpool})
+    # grand tours: a seeded permutation of a chunk of the pool, then the same chunk in
+    # reverse order.  For any two cfgs A, B of a chunk, A runs before some run of B (in the
+    # forward pass or in the reverse pass), so every ordered cross-structure pair is
+    # exercised once per tour -- a leak from A into B needs no luck within a chunk.
+    r4 = random.Random(seed * 1_000_003 + 4242)
+    matrix_idx = [i for i, c in enumerate(pool) if i >= n_pool_random]
+    rest_idx = [i for i in range(n_pool_random)]
+    r4.shuffle(matrix_idx)
+    r4.shuffle(rest_idx)
+    chunks = [matrix_idx[i:i + 48] for i in range(0, len(matrix_idx), 48)]
+    chunks += [rest_idx[i:i + 40] for i in range(0, len(rest_idx), 40)]
+    if not quick:
+        # thorough: additional tours over mixed chunks
+        both = matrix_idx + rest_idx
+        for rep in range(6):
+            r4.shuffle(both)
+            chunks += [both[i:i + 60] for i in range(0, len(both), 60)]
+    for ti, ch in enumerate(chunks):
+        if len(ch) < 2:
+            continue
+        sub = [pool[i] for i in ch]
+        order = list(range(len(ch)))
+        ops = [{"op": "run", "cfg_index": j, "entry": "run_pdb2pqr"} for j in order + order[::-1]]
+        hists.append({"id": f"ht{ti}", "kind": "c11.history", "seed": seed * 1_000_003 + 9000 + ti,
+                      "ops": ops, "pool": sub})
+    # long jobs first
+    hists.sort(key=lambda h: (-len(h["ops"]), h["id"]))
     hs_values = [0, 4242] if quick else [0, 4242, 1, 99991, 2**31 - 5, 31337]
     third = (seed * 2654435761 + 12345) % 4294967295
     servers = [(f"H{v}", {"PYTHONHASHSEED": str(v)}, 6 if quick else 3) for v in hs_values]
@@ -758,13 +848,24 @@ def main(tier, seed):
                 return b is not None and b["kind"] == bad["kind"]
 
             ops = list(h["ops"][: bad["op_index"] + 1])
-            i = 0
-            while i < len(ops) - 1:
-                cand = ops[:i] + ops[i + 1:]
-                if fails(cand):
-                    ops = cand
-                else:
-                    i += 1
+            # ddmin over everything before the violating run (which is kept)
+            head, last = ops[:-1], ops[-1:]
+            n = 2
+            while len(head) >= 1:
+                chunk = max(1, len(head) // n)
+                reduced = False
+                for i in range(0, len(head), chunk):
+                    cand = head[:i] + head[i + chunk:]
+                    if fails(cand + last):
+                        head = cand
+                        n = max(n - 1, 2)
+                        reduced = True
+                        break
+                if not reduced:
+                    if chunk == 1:
+                        break
+                    n = min(len(head), n * 2)
+            ops = head + last
             # make cfgs explicit so the replay file needs no pool
             expl = []
             for op in ops:
@@ -817,6 +918,7 @@ def main(tier, seed):
         "ambient_axes_varied": stats["ambient_axes"],
         "cfg_families": len(families),
         "family_sweep_histories": sum(1 for h in hists if h["id"].startswith("hf")),
+        "grand_tour_histories": sum(1 for h in hists if h["id"].startswith("ht")),
         "distinct_states": {"measure": "distinct (previous operation kind -> revisited cfg) "
                                        "pairs + distinct non-trivial histories",
                             "value": len(pairs) + len(sigs)},
